@@ -6,6 +6,7 @@ package main
 
 import (
 	"bytes"
+	"encoding/json"
 	"io"
 	"iter"
 	"strconv"
@@ -62,6 +63,8 @@ func gNewick(n *newick.Node) gItem {
 // made after visit returned false (must be 0) and whether the iterator panicked.
 func run2[T any](seq iter.Seq2[T, error], proj func(T) gItem, visit func(gItem) bool) (afterStop int, panicked bool) {
 	stopped := false
+	var kept []T
+	var first []gItem
 	panicked, _ = catch(func() {
 		seq(func(v T, err error) bool {
 			if stopped {
@@ -73,6 +76,9 @@ func run2[T any](seq iter.Seq2[T, error], proj func(T) gItem, visit func(gItem) 
 				it = gErr
 			} else {
 				it = proj(v)
+				if len(kept) < 64 {
+					kept, first = append(kept, v), append(first, it)
+				}
 			}
 			if !visit(it) {
 				stopped = true
@@ -81,6 +87,14 @@ func run2[T any](seq iter.Seq2[T, error], proj func(T) gItem, visit func(gItem) 
 			return true
 		})
 	})
+	// a delivered record must stay what it was when it was delivered (no aliasing of reader buffers)
+	for i, v := range kept {
+		a, _ := json.Marshal(proj(v))
+		b, _ := json.Marshal(first[i])
+		if !bytes.Equal(a, b) {
+			panicked = true
+		}
+	}
 	return
 }
 
@@ -191,6 +205,45 @@ func corpusFor(fmtName string, salt int64, n int, maxRec int) []corpusInput {
 		out = append(out, corpusInput{fmtName, append([]byte{}, buf.Bytes()...), true})
 	}
 	return out
+}
+
+// longLineInput: a well-formed input with one line / token longer than 64 KiB (long reads, long names)
+func longLineInput(fmtName string, salt int64) corpusInput {
+	r := newRand(salt)
+	buf := &bytes.Buffer{}
+	const n = 70000
+	switch fmtName {
+	case "fasta":
+		(&fasta.Fasta{Name: []byte("short"), Sequence: faRandBytes(r, 100, "\r\n>")}).Write(buf)
+		buf.WriteString(">long\n")
+		buf.Write(faRandBytes(r, n, "\r\n>")) // one unwrapped line
+		buf.WriteString("\n")
+		(&fasta.Fasta{Name: []byte("after"), Sequence: faRandBytes(r, 50, "\r\n>")}).Write(buf)
+	case "fastq":
+		(&fastq.Fastq{Name: []byte("short"), Sequence: fqBytes(r, 30), Quals: fqBytes(r, 30)}).Write(buf)
+		(&fastq.Fastq{Name: []byte("long"), Sequence: fqBytes(r, n), Quals: fqBytes(r, n)}).Write(buf)
+		(&fastq.Fastq{Name: []byte("after"), Sequence: fqBytes(r, 20), Quals: fqBytes(r, 20)}).Write(buf)
+	case "sam", "samh":
+		buf.WriteString("@HD\tVN:1.6\n")
+		samRecord(r).Write(buf)
+		samLong(r, n/2).Write(buf)
+		samRecord(r).Write(buf)
+	case "bed":
+		bedRecord(r, 4).Write(buf)
+		b := bedRecord(r, 4)
+		b.Name = string(faRandBytes(r, n, "\r\n\t"))
+		b.Write(buf)
+		bedRecord(r, 4).Write(buf)
+	case "newick":
+		nwRandTree(r, 3, false).Write(buf)
+		t := nwRandTree(r, 5, false)
+		t.Name = string(faRandBytes(r, n, "\r\n"))
+		t.Children[0].Name = string(bytes.Repeat([]byte("x"), n)) // unquoted long token
+		t.Write(buf)
+		buf.WriteString("\n")
+		nwRandTree(r, 4, false).Write(buf)
+	}
+	return corpusInput{fmtName, append([]byte{}, buf.Bytes()...), true}
 }
 
 // noisy variants: arbitrary bytes and grammar-aware mutations of well-formed inputs (self-consistency only)
